@@ -9,22 +9,35 @@
    it is notified of its cancellation) and every script (registrations, cancellations, clock advances,
    NOHANG and sleeping iterations). *)
 From Coq Require Import ZArith List.
-From Tickit Require Import LoopDefs LoopSpec LoopAsIs LoopProofs LoopRefine LoopOrder.
+From Tickit Require Import LoopDefs LoopSpec LoopAsIs LoopProofs LoopRefine LoopOrder LoopSpecEq LoopHeap LoopHeapProofs.
 Import ListNotations.
 Local Open Scope Z_scope.
 
-(* the model of the repaired code produces, for every callback environment and every script,
-   exactly the log of the priority-queue specification (LoopSpec, queue formulation: pending
-   timers keyed by (deadline, registration number); an iteration takes the due ones, in key
-   order, then the deferred ones, out of the pending structures as its snapshot and invokes
-   them one by one with FIRE|UNBIND; cancel removes a watch wherever it is, the snapshot
-   included, with UNBIND iff asked; registrations go to the pending structures and so wait;
-   destruction notifies every remaining asker once).  The identity-snapshot formulation of
-   the same specification (nothing is ever detached) is what the oracle runs; the oracle also
-   demands that the two formulations agree on every case. *)
-Theorem C17_refines : forall env uenv ops, run false env uenv ops = qspec_run env uenv ops.
-Proof. exact refines. Qed.
+(* THE specification (LoopSpec.spec_run, ~60 lines): pending timers are a priority queue keyed
+   by (deadline, registration number), deferred callbacks a queue; nothing is ever detached.
+   An iteration at time now takes the SNAPSHOT of the identities of the timers with deadline <=
+   now, in key order, followed by those of the deferred callbacks, and invokes with FIRE|UNBIND
+   each identity that is still pending when its turn comes; registrations get fresh identities
+   (so they wait for a later iteration, whatever their deadline); cancel removes the watch
+   wherever it is and delivers UNBIND iff asked (the notification may register replacements);
+   destruction notifies every remaining asker once.
+   The model of the repaired code produces exactly the log of this specification -- every
+   callback invocation with flags, iteration, clock and deadline, every ppoll time-out, the
+   destroy notifications -- for every callback environment, every script, every clock sequence. *)
+Theorem C17_refines : forall env uenv ops, run false env uenv ops = spec_run env uenv ops.
+Proof. exact refines_spec. Qed.
 Print Assumptions C17_refines.
+
+(* the proof goes through a second formulation of the same specification, in which the
+   iteration keeps its snapshot as a queue (LoopSpec.qspec_run); the two formulations give the
+   same log for every environment and script *)
+Theorem C17_spec_formulations_agree : forall env uenv ops, spec_run env uenv ops = qspec_run env uenv ops.
+Proof. exact spec_formulations_agree. Qed.
+Print Assumptions C17_spec_formulations_agree.
+
+Theorem C17_refines_queue : forall env uenv ops, run false env uenv ops = qspec_run env uenv ops.
+Proof. exact refines. Qed.
+Print Assumptions C17_refines_queue.
 
 (* in a whole history no watch is invoked (FIRE) more than once *)
 Theorem C17_at_most_once : forall env uenv ops id, (fires id (run false env uenv ops) <= 1)%nat.
@@ -69,6 +82,32 @@ Theorem C17_destroy_notifies : forall s,
   rev (map (destroy_event s) (filter asked (ios s ++ timers s ++ laters s ++ sigs s ++ procs s))) ++ log s.
 Proof. exact destroy_notifies. Qed.
 Print Assumptions C17_destroy_notifies.
+
+(* ---- the heap-level twin (LoopHeap.v): the same functions over a heap of TickitWatch nodes
+   with addresses, malloc (never the same address twice) and free; every access the C makes to
+   a node -- next, flags, type, fn, timer.at, watch->type in tickit_watch_cancel, free itself --
+   is a checked read that Faults (None) on a freed or unallocated node; the harness's own table
+   of live watches is part of the state.  For EVERY script (registrations and cancellations
+   from outside and from inside callbacks and UNBIND notifications, a watch cancelling itself
+   included, clock advances, iterations) and every pair of callback environments the heap
+   model does not fault, logs exactly what the list model logs, and after tickit_destroy no
+   allocated node is left (the boolean).  Proved through the representation invariant
+   LoopHeapProofs.Rep, not by testing; the driver prints this verdict (FAULT / LEAK) as part
+   of the model's observation, the harness prints LEAK when the heap grew over a case and
+   crashes under AddressSanitizer on a bad access. *)
+Theorem C17_heap_safe : forall env uenv ops, h_run false env uenv ops = Some (run false env uenv ops, true).
+Proof. exact heap_safe. Qed.
+Print Assumptions C17_heap_safe.
+
+(* the heap model is not blind: with the seeded order of cancel_watch_in (unlink after the
+   UNBIND notification, seeded-ports/C17-3.diff) it leaks on the script on which the seeded
+   library leaks, with the log the seeded library prints *)
+Theorem C17_heap_seeded_leaks :
+  h_run true hw_env hw_uenv hw_ops = Some ([OEv (mkE 0 KLater EV_UNBIND 0 0 0); OPoll 0], false) /\
+  h_run false hw_env hw_uenv hw_ops =
+    Some ([OEv (mkE 0 KLater EV_UNBIND 0 0 0); OPoll 0; OEv (mkE 1 KLater (EV_FIRE + EV_UNBIND) 1 0 0)], true).
+Proof. exact heap_seeded_leaks. Qed.
+Print Assumptions C17_heap_seeded_leaks.
 
 (* ---- the pinned code *)
 Theorem C17_refuted_use_after_free : a_run true w22a_env 100 w22a_ops = None.
